@@ -769,8 +769,7 @@ func c13R8(c *Ctx, gens []*FuncInfo) {
 				if sig == nil {
 					return false
 				}
-				ok, known := isSuccessReturn(info, sig, ret)
-				return known && !ok
+				return guardedFailure(fn, sig, ret)
 			})
 			c.Check(w == nil, "C13.R8", fn.Name+": "+v.Name()+" = "+cs.Callee.Name()+"(…) is applied on every successful path", p.Pos(cs.Call), fn.Key(),
 				"must-pass: generator → nic.Setup(…, "+v.Name()+") → success return", "path: "+p.describePath(w))
